@@ -227,6 +227,36 @@ func init() {
 			m.natives["stdin"] = buf[n:]
 			return Tuple{m.mkInt(int64(n)), Iface{}}
 		},
+		// ---- HTTP GET + JSON decode bridge (plugin manifests, C28) ----
+		// http.NewRequest records the URL; (*http.Client).Do hands it to zzverif.HTTPDo, which builds
+		// the response from the harness hook zzverif.HTTPGetFn; json.NewDecoder(r).Decode(v) hands v
+		// to zzverif.JSONDecode -> harness hook zzverif.JSONDecodeFn (encoding/json is reflection).
+		"net/http.NewRequest": func(m *Machine, _ *frame, fn *ssa.Function, a []Value) Value {
+			m.natives["http.url"] = a[1]
+			return Tuple{m.zero(fn.Signature.Results().At(0).Type()), Iface{}}
+		},
+		"(*net/http.Request).WithContext": func(m *Machine, _ *frame, _ *ssa.Function, a []Value) Value { return a[0] },
+		"(*net/http.Client).Do": func(m *Machine, caller *frame, _ *ssa.Function, a []Value) Value {
+			u, ok := m.natives["http.url"].(Value)
+			if !ok {
+				m.abort("unsupported: http.Client.Do without http.NewRequest")
+			}
+			zp := m.P.Prog.ImportedPackage("github.com/cube2222/octosql/zzverif/zznet")
+			if zp == nil || zp.Func("HTTPDo") == nil {
+				m.abort("unsupported: net/http without the zzverif/zznet bridge")
+			}
+			return m.runBody(caller, zp.Func("HTTPDo"), []Value{u}, nil)
+		},
+		"encoding/json.NewDecoder": func(m *Machine, caller *frame, _ *ssa.Function, a []Value) Value {
+			return m.callZZ(caller, "NewJSONDecoder", nil)
+		},
+		"(*encoding/json.Decoder).Decode": func(m *Machine, caller *frame, _ *ssa.Function, a []Value) Value {
+			return m.callZZ(caller, "JSONDecode", []Value{a[1]})
+		},
+		"os.RemoveAll": func(m *Machine, _ *frame, _ *ssa.Function, a []Value) Value { return Iface{} },
+		"os.MkdirAll": func(m *Machine, caller *frame, _ *ssa.Function, a []Value) Value {
+			return m.callZZ(caller, "MkdirAll", []Value{a[0]})
+		},
 		"context.WithCancel": func(m *Machine, caller *frame, _ *ssa.Function, a []Value) Value {
 			return m.callZZ(caller, "WithCancel", a)
 		},
@@ -379,6 +409,22 @@ func init() {
 				m.abort("unsupported: regexp FindAllString with symbolic pattern or subject")
 			}
 			return strSlice(re.re.FindAllString(subj.S, int(tT(a[2]).Int())))
+		},
+		"(*regexp.Regexp).FindAllStringSubmatch": func(m *Machine, _ *frame, fn *ssa.Function, a []Value) Value {
+			re := m.regexpOf(a[0])
+			subj := normStr(m.strBytes(a[1].(Str)))
+			if subj.B != nil || re.re == nil {
+				m.abort("unsupported: regexp FindAllStringSubmatch with symbolic pattern or subject")
+			}
+			all := re.re.FindAllStringSubmatch(subj.S, int(tT(a[2]).Int()))
+			if all == nil {
+				return Slice{}
+			}
+			out := make([]Value, len(all))
+			for i, x := range all {
+				out[i] = strSlice(x)
+			}
+			return Slice{A: out}
 		},
 		"(*regexp.Regexp).FindString": func(m *Machine, _ *frame, fn *ssa.Function, a []Value) Value {
 			re := m.regexpOf(a[0])
